@@ -266,7 +266,7 @@ namespace
         auto        w   = view.as_window();
         TSWDataView raw = w.data_view();
         out.line({20, t, view.modified(), view.valid(), view.all_valid(), us(view.last_modified_time()), (I64)w.size(), (I64)w.capacity(),
-                  w.full(), (I64)w.min_period(), raw.has_removed_value(dt(t)), raw.has_removed_value(dt(t)) ? as_i(raw.removed_value(dt(t))) : 0,
+                  w.full(), (I64)(w.duration_based() ? 0 : w.min_period()), raw.has_removed_value(dt(t)), raw.has_removed_value(dt(t)) ? as_i(raw.removed_value(dt(t))) : 0,
                   raw.cleared(dt(t)), us(w.first_modified_time())});
         Line v{21}, tm{22};
         append_keys(v, w.values());
@@ -464,9 +464,11 @@ namespace
                 tsd_observe(out, cy.t, view, view.modified());
             }
         }
-        else if (s.kind == 3)
+        else if (s.kind == 3 || s.kind == 9)
         {
-            TSOutput output{*registry.tsw(int_meta, (std::size_t)s.p1, (std::size_t)s.p2)};
+            // kind 3: tick-count window (period p1, min_period p2); kind 9: DURATION window (time range p1, min range p2)
+            TSOutput output{s.kind == 3 ? *registry.tsw(int_meta, (std::size_t)s.p1, (std::size_t)s.p2)
+                                        : *registry.tsw_duration(int_meta, TimeDelta{s.p1}, TimeDelta{s.p2})};
             for (const Cycle &cy : s.cycles)
             {
                 const DateTime t = dt(cy.t);
@@ -538,6 +540,7 @@ namespace
         if (s.kind == 1) { schema = registry.tss(int_meta); }
         else if (s.kind == 2) { schema = registry.tsd(int_meta, ts_int); }
         else if (s.kind == 3) { schema = registry.tsw(int_meta, (std::size_t)s.p1, (std::size_t)s.p2); }
+        else if (s.kind == 9) { schema = registry.tsw_duration(int_meta, TimeDelta{s.p1}, TimeDelta{s.p2}); }
         else if (s.kind == 4) { schema = registry.tsd(int_meta, registry.tss(int_meta)); }
         else if (s.kind == 7) { schema = registry.tsb("hgv_coll_b3", {{"a", ts_int}, {"b", ts_int}, {"c", ts_int}}); }
         else if (s.kind == 8) { schema = registry.tsl(ts_int, 3); }
@@ -572,7 +575,7 @@ namespace
                         auto view = v.output(now);
                         if (sc.kind == 1) { auto x = view.as_set(); auto m = x.begin_mutation(now); pc->out->line(tss_apply(m, cy.ops)); }
                         else if (sc.kind == 2) { auto x = view.as_dict(); pc->out->line(tsd_apply(x, now, cy.ops)); }
-                        else if (sc.kind == 3) { auto x = view.as_window(); auto m = x.begin_mutation(now); pc->out->line(tsw_apply(m, cy.ops)); }
+                        else if (sc.kind == 3 || sc.kind == 9) { auto x = view.as_window(); auto m = x.begin_mutation(now); pc->out->line(tsw_apply(m, cy.ops)); }
                         else if (sc.kind == 4) { auto x = view.as_dict(); auto m = x.begin_mutation(now); pc->out->line(tsdn_apply(m, now, cy.ops)); }
                         else if (sc.kind == 7) { auto x = view.as_bundle(); pc->out->line(fixed_apply(x, now, cy.ops)); }
                         else { auto x = view.as_list(); pc->out->line(fixed_apply(x, now, cy.ops)); }
@@ -622,7 +625,7 @@ namespace
                     const I64 ticked = pc->active_ran_at == t;
                     if (sc.kind == 1) { tss_observe(*pc->out, t, in, ticked); }
                     else if (sc.kind == 2) { tsd_observe(*pc->out, t, in, ticked); }
-                    else if (sc.kind == 3) { tsw_observe(*pc->out, t, in, ticked); }
+                    else if (sc.kind == 3 || sc.kind == 9) { tsw_observe(*pc->out, t, in, ticked); }
                     else if (sc.kind == 4) { tsdn_observe(*pc->out, t, in, ticked); }
                     else if (sc.kind == 7) { auto c = in.as_bundle(); fixed_observe(*pc->out, t, in, c, true, ticked); }
                     else { auto c = in.as_list(); fixed_observe(*pc->out, t, in, c, false, ticked); }
